@@ -166,6 +166,8 @@ def scan_prefix(root, words):
     pc = 0
     i = 0
     n = len(words)
+    in_pos = False      # a multiple positional is being filled (the parser's ParseState::Pos)
+    weak = False        # ... has happened: only soundness is judged from then on
     while i < n:
         if level["flags"] & UNSAFE_CMD_FLAGS:
             return None
@@ -176,6 +178,8 @@ def scan_prefix(root, words):
             return None
         if w == b"--" or w == b"-" or w == b"":
             return None
+        if w.startswith(b"-"):
+            in_pos = False
         if w.startswith(b"--"):
             body = w[2:]
             name, eq, _val = body.partition(b"=")
@@ -223,19 +227,30 @@ def scan_prefix(root, words):
             i += 2 if consumed_next else 1
             continue
         s = find_sub(level, w)
-        if s is not None:
+        if s is not None and not in_pos:
             level = s
             pc = 0
             i += 1
             continue
         pos = [a for a in level["args"] if "positional" in a["flags"] and a.get("index") == pc + 1]
-        if len(pos) != 1 or (pos[0]["min"], pos[0]["max"]) != (1, 1) or pos[0]["flags"] & {"last", "tva", "term"}:
+        if len(pos) == 1 and (pos[0]["max"] >= 2**62 or "append" in pos[0]["flags"]) and pos[0]["min"] <= 1 \
+                and not pos[0]["flags"] & {"last", "tva", "term", "hyphen", "negnum", "delim"}:
+            # unbounded / appending positional: every further plain word is one of its values, also one
+            # that names a subcommand (Parser::get_matches_with looks for subcommands only outside Pos)
+            in_pos = True
+            weak = True
+            i += 1
+            continue
+        # a positional that takes several values or appends is "multiple" for the parser: while it is being
+        # filled subcommand names are values, so the level cannot be decided by convention
+        if len(pos) != 1 or (pos[0]["min"], pos[0]["max"]) != (1, 1) \
+                or pos[0]["flags"] & {"last", "tva", "term", "append"}:
             return None
         pc += 1
         i += 1
     if level["flags"] & UNSAFE_CMD_FLAGS:
         return None
-    return level
+    return level, weak
 
 
 def decode_case(case):
@@ -268,9 +283,10 @@ def accept_oracle(case, impl):
     start = 0 if "no_binary_name" in root["flags"] else 1
     if index < start:
         return "candidates returned for the binary name"
-    level = scan_prefix(root, argv[start:index])
-    if level is None:
+    sc = scan_prefix(root, argv[start:index])
+    if sc is None:
         return None
+    level, weak = sc
     word = argv[index]
     acc = {}
     ids = {}
@@ -329,6 +345,8 @@ def accept_oracle(case, impl):
     if any_visible and any(h for _, h in cands):
         return "hidden candidates offered although a visible one matches"
     # ---- completeness: visible options / subcommands with a spelling extending the (well-formed) word
+    if weak:
+        return None
     try:
         word.decode("utf-8")
     except UnicodeDecodeError:
